@@ -10,6 +10,8 @@ import (
 	"sync"
 	"testing/synctest"
 
+	"github.com/gotd/log"
+
 	"github.com/gotd/td/bin"
 	"github.com/gotd/td/pool"
 	"pgregory.net/rapid"
@@ -139,6 +141,8 @@ type pmachine struct {
 	cancelAtTransfer int // -1 = never; else on the n-th transfer
 	deadAtTransfer   int // -1 = never; else on the n-th transfer every goroutine parked at "dead-entry" is released
 	transfers        int
+	startAtLog       int      // -1 = never; else at the n-th log record of the pool a not yet started caller starts
+	logRecords       int
 	script           []string // action names to perform first (a directly constructed prefix), then drawn actions
 }
 
@@ -169,7 +173,7 @@ func (m *pmachine) note(f string, a ...any) {
 var parkPoints = []string{"dead-entry", "release-entry", "acquire-created", "acquire-wait", "acquire-stuck", "acquire-giveup"}
 
 func newPMachine(t *rapid.T) *pmachine {
-	m := &pmachine{t: t, classes: map[string]bool{}, cancelAtTransfer: -1, deadAtTransfer: -1}
+	m := &pmachine{t: t, classes: map[string]bool{}, cancelAtTransfer: -1, deadAtTransfer: -1, startAtLog: -1}
 	m.max = int64(rapid.SampledFrom([]int{1, 1, 2, 3, 0}).Draw(t, "max"))
 	var hooks []string
 	for _, p := range parkPoints {
@@ -204,7 +208,10 @@ func newPMachine(t *rapid.T) *pmachine {
 		m.callers = append(m.callers, c)
 	}
 	pool.VerifSetHook(m.hook)
-	m.dc = pool.NewDC(context.Background(), 2, m.newConn, pool.DCOptions{MaxOpenConnections: m.max})
+	if rapid.Bool().Draw(t, "startAtLog") {
+		m.startAtLog = rapid.IntRange(0, 12).Draw(t, "nthLogRecord")
+	}
+	m.dc = pool.NewDC(context.Background(), 2, m.newConn, pool.DCOptions{MaxOpenConnections: m.max, Logger: poolLogger{m}})
 	return m
 }
 
@@ -274,8 +281,50 @@ func (m *pmachine) hook(point string, id int64) {
 	m.sched.Hook(point, id)
 }
 
+// poolLogger: the pool's log records are points the harness owns (DCOptions.
+// Logger). Some are written while the DC mutex is held, so nothing parks here;
+// instead, at a pre-drawn record, a caller that has not started yet starts and
+// the logging goroutine yields: the new caller runs into whatever the pool is
+// in the middle of (it blocks on the DC mutex if the pool holds it).
+type poolLogger struct{ m *pmachine }
+
+func (l poolLogger) Enabled(context.Context, log.Level) bool { return true }
+
+func (l poolLogger) Log(_ context.Context, _ log.Level, msg string, _ ...log.Attr) {
+	m := l.m
+	m.mu.Lock()
+	n := m.logRecords
+	m.logRecords++
+	var c *pcaller
+	if n == m.startAtLog {
+		for _, x := range m.callers {
+			if !x.started {
+				c = x
+				break
+			}
+		}
+	}
+	if c != nil {
+		c.started = true
+		m.classes["caller-started-inside-pool-operation"] = true
+	}
+	m.mu.Unlock()
+	if c == nil {
+		return
+	}
+	m.ev("start(caller %d) at log record %d %q", c.idx, n, msg)
+	m.launch(c)
+	for i := 0; i < 64; i++ {
+		runtime.Gosched()
+	}
+}
+
 func (m *pmachine) startCaller(c *pcaller) {
 	c.started = true
+	m.launch(c)
+}
+
+func (m *pmachine) launch(c *pcaller) {
 	go func() {
 		err := m.dc.Invoke(c.ctx, callerEnc(c.idx), nopDec{})
 		m.mu.Lock()
@@ -367,7 +416,7 @@ func (m *pmachine) step() {
 		}
 		for _, inv := range k.inflight {
 			inv := inv
-			for _, outcome := range []string{"ok", "retryable", "fail"} {
+			for _, outcome := range []string{"ok", "retryable", "fail", "fail-canceled"} {
 				outcome := outcome
 				// pool.ErrConnDead / rpc.ErrEngineClosed come only from a connection
 				// that is dead or closing (manager.Conn.waitSession, rpc.Engine.ForceClose
@@ -381,6 +430,14 @@ func (m *pmachine) step() {
 						inv.result <- nil
 					case "retryable":
 						inv.result <- fmt.Errorf("harness: %w", pool.ErrConnDead)
+					case "fail-canceled":
+						// a request that was aborted inside a live connection (a middleware
+						// or sub-context of its own): the error wraps context.Canceled although
+						// the caller's context is alive and the connection is fine
+						inv.result <- fmt.Errorf("harness: request aborted: %w", context.Canceled)
+						m.mu.Lock()
+						m.classes["inner-cancel-on-live-connection"] = true
+						m.mu.Unlock()
 					default:
 						inv.result <- errNonRetryable
 					}
@@ -438,7 +495,10 @@ func (m *pmachine) afterQuiescence() {
 		if c.runExited && !c.observed {
 			stillParked := false
 			for _, p := range parked {
-				if p.Name == "dead-entry" && p.ID == c.n {
+				// (the pool numbers its connections before it creates them, so with two
+				// creations under way its ids and the fake connections' numbers can
+				// differ: any stopped death report may be this connection's)
+				if p.Name == "dead-entry" {
 					stillParked = true
 				}
 			}
@@ -474,6 +534,8 @@ func (m *pmachine) probe() {
 	// end all activity; the probe itself runs without injected cancellations
 	m.mu.Lock()
 	m.cancelAtTransfer = -1
+	m.deadAtTransfer = -1
+	m.startAtLog = -1
 	m.mu.Unlock()
 	m.sched.Off()
 	synctest.Wait()
@@ -581,6 +643,9 @@ func (m *pmachine) teardown() {
 		return
 	}
 	m.tornDown = true
+	m.mu.Lock()
+	m.startAtLog = -1
+	m.mu.Unlock()
 	m.sched.Off()
 	for i := 0; i < 20; i++ {
 		synctest.Wait()
@@ -624,7 +689,7 @@ func (m *pmachine) dump() string {
 
 func (m *pmachine) classList() []string {
 	var out []string
-	for _, k := range []string{"cancel-during-create", "cancel-during-handover", "cancel-while-waiting", "death-in-use", "death-while-caller-waits", "probed", "invoke-on-unready", "death-report-during-handover", "scripted:double-death-report-during-handover", "script-abandoned"} {
+	for _, k := range []string{"cancel-during-create", "cancel-during-handover", "cancel-while-waiting", "death-in-use", "death-while-caller-waits", "probed", "invoke-on-unready", "inner-cancel-on-live-connection", "caller-started-inside-pool-operation", "death-report-during-handover", "scripted:double-death-report-during-handover", "script-abandoned"} {
 		if m.classes[k] {
 			out = append(out, k)
 		}
